@@ -3,6 +3,8 @@ package main
 import (
 	"fmt"
 	"math/rand"
+	"strings"
+	"time"
 
 	"github.com/Shopify/sarama"
 	"github.com/Shopify/sarama/mocks"
@@ -21,6 +23,10 @@ type sscript struct {
 	Overrides map[string]int32 `json:"overrides"`
 	Exps      []exp            `json:"exps"`
 	Calls     []scall          `json:"calls"`
+	// Concurrent: the first two calls (both SendMessage) are made by two goroutines A and B. The checker of the first
+	// expectation, once entered by A, holds A until B's call has returned or 100 ms have passed (on the unmodified
+	// mock B waits for the lock A holds, so it is always the time-out, and the calls are serialised A, B).
+	Concurrent bool `json:"concurrent,omitempty"`
 }
 
 type syncRet struct {
@@ -35,6 +41,8 @@ type obsSync struct {
 	NP    [][3]int64 `json:"np"`
 	Ctors []int64    `json:"ctors"`
 	Hang  bool       `json:"hang,omitempty"`
+	// concurrent cases: did B's call return while A was still inside its checker?
+	Overlapped bool `json:"overlapped,omitempty"`
 }
 
 func runSync(s sscript) (o obsSync) {
@@ -53,7 +61,33 @@ func runSync1(s sscript) obsSync {
 	cfg.Producer.Partitioner = plog.constructor()
 	sp := mocks.NewSyncProducer(rep, cfg)
 	setPartitions(sp.TopicConfig, s.DefParts, s.Overrides)
-	addExps(s.Exps, clog, expAPI{
+	entered, gate := make(chan struct{}), make(chan struct{})
+	first := s.Exps
+	if s.Concurrent { // the first expectation gets the gated checker
+		e0 := s.Exps[0]
+		first = s.Exps[1:]
+		var res, serr error
+		if e0.Chk == 2 {
+			res = fmt.Errorf("e%d", e0.CErr)
+		}
+		if !e0.Succ {
+			serr = fmt.Errorf("e%d", e0.Err)
+		}
+		chk := func(m *sarama.ProducerMessage) error {
+			clog.mu.Lock()
+			clog.Calls = append(clog.Calls, [2]int64{m.Metadata.(msg).ID, int64(m.Partition)})
+			clog.mu.Unlock()
+			close(entered)
+			<-gate
+			return res
+		}
+		if e0.Succ {
+			sp.ExpectSendMessageWithMessageCheckerFunctionAndSucceed(chk)
+		} else {
+			sp.ExpectSendMessageWithMessageCheckerFunctionAndFail(chk, serr)
+		}
+	}
+	addExps(first, clog, expAPI{
 		msgChk: func(c mocks.MessageChecker, succ bool, err error) {
 			if succ {
 				sp.ExpectSendMessageWithMessageCheckerFunctionAndSucceed(c)
@@ -76,7 +110,51 @@ func runSync1(s sscript) obsSync {
 			}
 		}})
 	var o obsSync
-	for _, c := range s.Calls {
+	calls := s.Calls
+	if s.Concurrent {
+		calls = s.Calls[2:]
+		pa, pb := clog.message(s.Calls[0].Msgs[0]), clog.message(s.Calls[1].Msgs[0])
+		one := func(pm *sarama.ProducerMessage, r *syncRet, done chan struct{}) {
+			p, off, err := sp.SendMessage(pm)
+			*r = syncRet{RetP: int64(p), Off: off, Err: errID(err), After: [][2]int64{{int64(pm.Partition), pm.Offset}}}
+			close(done)
+		}
+		var ra, rb syncRet
+		doneA, doneB := make(chan struct{}), make(chan struct{})
+		go one(pa, &ra, doneA)
+		select {
+		case <-entered: // A is inside the first expectation's checker
+		case <-doneA: // the checker was not reached (partitioner error)
+		}
+		go one(pb, &rb, doneB)
+		select {
+		case <-doneB:
+			o.Overlapped = true
+		case <-time.After(100 * time.Millisecond):
+		}
+		close(gate)
+		<-doneA
+		<-doneB
+		// B may start logging the instant A releases the lock, so the two calls' reporter and checker calls are told
+		// apart by content: the generator gives the first expectation's checker the error id 209 and nobody else
+		idA := s.Calls[0].Msgs[0].ID
+		for _, l := range rep.snapshot() {
+			if strings.HasSuffix(l, ": e209") {
+				ra.Reports = append(ra.Reports, classify(l))
+			} else {
+				rb.Reports = append(rb.Reports, classify(l))
+			}
+		}
+		for _, c := range clog.snapshot() {
+			if c[0] == idA {
+				ra.Checks = append(ra.Checks, c)
+			} else {
+				rb.Checks = append(rb.Checks, c)
+			}
+		}
+		o.Rets = append(o.Rets, ra, rb)
+	}
+	for _, c := range calls {
 		var pms []*sarama.ProducerMessage
 		for _, m := range c.Msgs {
 			pms = append(pms, clog.message(m))
@@ -157,6 +235,30 @@ func genSync(r *rand.Rand) sscript {
 	return s
 }
 
+// genSyncConcurrent: two goroutines call SendMessage; the first expectation has the gated checker.
+func genSyncConcurrent(r *rand.Rand) sscript {
+	s := sscript{Mode: "sync", Concurrent: true, DefParts: int32(1 + r.Intn(40)), Overrides: map[string]int32{}}
+	n := 2 + r.Intn(3)
+	for i := 0; i < n; i++ {
+		m := genMsg(r, int64(i+1))
+		if i == 0 || r.Intn(3) != 0 {
+			m.POk = true
+		}
+		s.Calls = append(s.Calls, scall{Msgs: []msg{m}})
+	}
+	s.Exps = genExps(r, n+r.Intn(2))
+	for i := range s.Exps {
+		if r.Intn(3) != 0 {
+			s.Exps[i].Succ = true
+			if s.Exps[i].Chk == 2 {
+				s.Exps[i].Chk = 1
+			}
+		}
+	}
+	s.Exps[0].Chk, s.Exps[0].Via, s.Exps[0].CErr = 1+r.Intn(4)/3, 0, 209 // a checker (mostly passing) on the first expectation
+	return s
+}
+
 // monitor: the property read directly off the observation.
 func monitorSync(s sscript, o obsSync) *cf.Monitor {
 	topicOf := map[int64]int{}
@@ -170,6 +272,19 @@ func monitorSync(s sscript, o obsSync) *cf.Monitor {
 	}
 	if o.Hang {
 		return &cf.Monitor{Signature: "sync:hang", What: "the mock did not finish the script within 5 s"}
+	}
+	if s.Concurrent {
+		// submission order = expectation order (A's call took the first expectation before B was started):
+		// the i-th call's offset is 1 + the number of earlier successful calls
+		succ := int64(0)
+		for ci, x := range o.Rets {
+			if x.Err == 0 {
+				succ++
+				if x.Off != succ {
+					return &cf.Monitor{Signature: "sync:offset-order-under-concurrency", What: fmt.Sprintf("two concurrent SendMessage callers (B returned inside A's checker: %v): the call that took expectation %d got offset %d, want %d", o.Overlapped, ci, x.Off, succ)}
+				}
+			}
+		}
 	}
 	idx := 0         // expectations consumed so far
 	next := int64(1) // next offset to be handed out
@@ -287,5 +402,11 @@ func syncCase(s sscript) (string, cf.Sidecar) {
 	}
 	term := fmt.Sprintf("{| sc_def := %d; sc_over := %s; sc_exps := %s; sc_calls := %s; sc_rets := %s; sc_close := %s; sc_np := %s; sc_ctor := %s |}",
 		s.DefParts, coqOverrides(s.Overrides), coqExps(s.Exps), cf.List(calls), cf.List(rets), cf.List(o.Close), coqZ3s(o.NP), cf.ZList(o.Ctors))
-	return term, cf.Sidecar{Case: map[string]interface{}{"script": s, "observed": o}, Kind: "sync", Nontrivial: nmsgs > 0 && len(s.Exps) > 0, Monitor: monitorSync(s, o)}
+	mon := monitorSync(s, o)
+	kind := "sync"
+	if s.Concurrent {
+		kind = "sync-2callers"
+		o.Overlapped = false // timing detail, kept out of the recorded case
+	}
+	return term, cf.Sidecar{Case: map[string]interface{}{"script": s, "observed": o}, Kind: kind, Nontrivial: nmsgs > 0 && len(s.Exps) > 0, Monitor: mon}
 }
